@@ -53,6 +53,8 @@ class YowNoiseLayer(YowLayer):
         self._read_buffer = bytearray()
         self._flush_lock = threading.Lock()
         self._flush_owner = None
+        # serializes writing a handshake/transport segment with switching to the session of the next connection
+        self._session_lock = threading.RLock()
         self._profile = None
         self._rs = None
         self._new_session()
@@ -63,8 +65,11 @@ class YowNoiseLayer(YowLayer):
         session.protocol = WANoiseProtocol(
             4, 0, protocol_state_callbacks=lambda state: self._on_protocol_state_changed(state, session)
         )
-        self._session = session
-        self._handshake_worker = None
+        with self._session_lock:
+            # a write of the previous connection's session that is under way completes (or is dropped
+            # by the network layer) before the next connection can be set up
+            self._session = session
+            self._handshake_worker = None
         if stale is not None:
             # releases a worker that waits for the server of the connection that was cut, also one
             # that was started for it but only gets to run now
@@ -193,8 +198,9 @@ class YowNoiseLayer(YowLayer):
         session = session or self._session
         if event == BlockingQueueSegmentedStream.EVENT_WRITE:
             segment = session.stream.get_write_segment()
-            if session is self._session:
-                self.toLower(segment)
+            with self._session_lock:
+                if session is self._session:
+                    self.toLower(segment)
         elif event == BlockingQueueSegmentedStream.EVENT_READ:
             segment = session.queue.get(block=True)
             if segment is None:
